@@ -172,6 +172,96 @@ def run(ctx):
             r5.violation(key, "stale packets reach %s in a state other than Receiving" % cp.split("::")[-1], loc(t.sp))
     r5.floor(6, "calls in push")
 
+    byte_accounting(ctx, ctx.rule("C03.R7", BYTES_TEXT, "WWF + value shape + DOM"))
+
+
+BYTES_TEXT = ("BlockWriter byte accounting: bytes_left starts at the transfer length handed to BlockWriter::new (ObjectReceiver.transfer_length, with "
+              "content_length / cenc from the same object), every block is cut to at most bytes_left bytes before it reaches the writer, bytes_left "
+              "decreases by exactly the length of what was handed on, and is_completed() is bytes_left == 0 (the last block's padding is never written, "
+              "and 'complete' means all transfer-length bytes were handed on)")
+
+
+def byte_accounting(ctx, rule):
+    prog = ctx.prog
+    from ..cfg import strip_ref
+    w = prog.fn(BW + "::write")
+    ctx.analysed(w.path)
+    wf = Flow(w.body)
+    sl = Slicer(w.body)
+    vd = sl.var_defs()
+    inner = [s for s in call_sites(w, lambda p, c: p in (BW + "::write_pkt_cenc_null", BW + "::decode_write_pkt"))]
+    if not inner:
+        raise model.AnchorMissing("BlockWriter::write does not call write_pkt_cenc_null / decode_write_pkt")
+    handed = set()
+    for s in inner:
+        arg = strip_ref(s.expr[2][1])
+        key = "BlockWriter::write -> %s data trimmed to bytes_left" % s.term.callee_path().split("::")[-1]
+        if arg[0] != "var" or arg[2]:
+            rule.violation(key, "the data argument is %s" % show(arg, 60), s.loc)
+            continue
+        handed.add(arg[1])
+        defs = [(proj, e, bb) for (proj, e, bb) in vd.get(arg[1], []) if proj == ""]
+        bad = []
+        for (_, e, bb) in defs:
+            e = strip_ref(e)
+            idx = [c for c in walk(e) if c[0] == "call" and re.search(r"Index.*::index$", c[1]) and len(c[2]) == 2]
+            cut = any(strip_ref(c[2][1])[0] == "aggr" and "RangeTo" in strip_ref(c[2][1])[1] and show(strip_ref(c[2][1])[3][0]) == "self.bytes_left" for c in idx)
+            if cut:
+                continue
+            # the whole block: only where it is known to be shorter than what is left
+            fs = wf.facts_at(bb)
+            shorter = any((a[0] == "lt" and t and "len(" in show(a[1]) and show(a[2]) == "self.bytes_left") or
+                          (a[0] == "le" and t and "len(" in show(a[1]) and show(a[2]) == "self.bytes_left") for (a, t) in fs)
+            if not shorter:
+                bad.append(show(e, 60))
+        if defs and not bad:
+            rule.ok(key, "either data[..bytes_left] or the whole block under len(data) < bytes_left", s.loc)
+        else:
+            rule.violation(key, "the block is handed to the writer without being cut to the bytes that are left (%s): the padding of the last "
+                                "source block would be written / decoded" % (bad or "no definition"), s.loc)
+
+    def chk(a):
+        v = a["value"]
+        if a["kind"] == "construct":
+            return None if show(v) == "transfer_length" else "bytes_left starts at %s, not at the transfer length" % show(v, 40)
+        if a["func"].path != w.path:
+            return "written outside BlockWriter::write"
+        if v[0] == "bin" and v[1].startswith("Sub") and show(v[2]) == "self.bytes_left":
+            sub = strip_ref(v[3])
+            if sub[0] == "call" and sub[1].endswith("::len") and strip_ref(sub[2][0])[0] == "var" and strip_ref(sub[2][0])[1] in handed:
+                return None
+            return "bytes_left decreases by %s, not by the length of the data handed to the writer" % show(v[3], 60)
+        return "bytes_left assigned %s" % show(v, 60)
+
+    wwf(rule, prog, BW, "bytes_left", [r"^receiver::blockwriter::BlockWriter::(write|new)$"], kinds=("assign", "assign_sub", "borrow_mut", "construct"), value_check=chk)
+    ic = prog.fn(BW + "::is_completed")
+    rets = ret_assign_blocks(ic.body, lambda e: True)
+    from ..cfg import facts_of
+    okc = rets and all(any(a[0] == "eq" and t and {show(a[1]), show(a[2])} == {"self.bytes_left", "0"} for (a, t) in facts_of(e, True)) for _, e in rets)
+    if okc:
+        rule.ok("BlockWriter::is_completed", "bytes_left == 0", loc(ic.sp))
+    else:
+        rule.violation("BlockWriter::is_completed", "is_completed returns %s, expected bytes_left == 0" % [show(e, 60) for _, e in rets], loc(ic.sp))
+    # construction site
+    n = 0
+    for s in find_calls(prog, "^" + re.escape(BW) + "::new$"):
+        n += 1
+        g = s.func
+        gs = Slicer(g.body)
+        caller = g.root().path.split("::")[-1]
+        want = [("transfer length", r"self\.transfer_length"), ("content length", r"self\.content_length"), ("cenc", r"self\.cenc"), ("md5 switch", r"self\.enable_md5_check")]
+        for i, (nm, rx_) in enumerate(want):
+            ex = show(gs.expand(s.expr[2][i]), 200)
+            others = [r for j, (_, r) in enumerate(want) if j != i]
+            key = "%s BlockWriter::new(%s)" % (caller, nm)
+            if re.search(rx_, ex) and not any(re.search(o, ex) for o in others):
+                rule.ok(key, ex[:80], s.loc)
+            else:
+                rule.violation(key, "argument `%s` is %s" % (nm, ex[:100]), s.loc)
+    if n == 0:
+        raise model.AnchorMissing("BlockWriter::new is never called")
+    rule.floor(9, "byte accounting facts")
+
 
 _emit_cache = {}
 
